@@ -198,6 +198,7 @@ func genCase(w *world) {
 	genSeek(w, pool)
 	genFind(w, pool)
 	genProof(w, pool)
+	genDivergingStart(w)
 }
 
 func genBatch(w *world, pool, vals [][]byte) []change {
@@ -294,6 +295,40 @@ func genStart(r *prng.R, pool [][]byte, prefix []byte) []byte {
 		s = s[:room]
 	}
 	return s
+}
+
+// genDivergingStart: the named class "the start position leaves the trie inside an extension key after
+// >= 1 matching nibble" (billet.go:321-329, seeded C10-m7): a present key k, a prefix k[:a], and a start that
+// follows k for at least one nibble and then differs (in the low or the high nibble of a byte, smaller or
+// greater), optionally continued; Seek in both directions and Find from there.
+func genDivergingStart(w *world) {
+	r := w.r
+	var cands []string
+	for _, k := range sortedKeys(w.ref) {
+		if len(k) >= 2 && len(k) <= mpt.MaxKeyLength {
+			cands = append(cands, k)
+		}
+	}
+	if len(cands) == 0 {
+		return
+	}
+	k := []byte(cands[r.Intn(len(cands))])
+	a := r.Range(0, len(k)-2)
+	b := r.Range(a, len(k)-1) // the byte where the start leaves the key
+	var mask byte
+	if b == a || r.Bool() {
+		mask = byte(r.Range(1, 15)) // high nibble matches, low nibble differs: >= 1 matching nibble even for b == a
+	} else {
+		mask = byte(r.Range(1, 15)) << 4
+	}
+	start := append(bytes.Clone(k[a:b]), k[b]^mask)
+	if r.Chance(1, 3) {
+		start = append(start, pickB(r))
+	}
+	w.o.Count("seek:start-diverges-inside-key")
+	w.seek(bytes.Clone(k[:a]), start, false)
+	w.seek(bytes.Clone(k[:a]), start, true)
+	w.find(bytes.Clone(k[:a]), start, []int{1, 2, 1000}[r.Intn(3)])
 }
 
 func genSeek(w *world, pool [][]byte) {
@@ -910,4 +945,53 @@ var corpus = []func(w *world){
 		w.root()
 		w.seek(nil, nil, false)
 	},
+	// the start position leaves the trie inside an extension key after >= 1 matching nibble (seeded C10-m7):
+	// a lone key (root extension of 8 nibbles) and an extension below a branch; start smaller / greater at
+	// the divergence, in the low / high nibble, both directions, with and without a prefix, Seek and Find
+	func(w *world) {
+		putAll(w, "12345678")
+		for _, st := range []string{"1211", "1299", "1233", "1235", "123455", "123457", "12345677", "12345679"} {
+			w.seek(nil, hb(st), false)
+			w.seek(nil, hb(st), true)
+			w.find(nil, hb(st), 10)
+		}
+		w.seek(hb("12"), hb("33"), false)
+		w.seek(hb("12"), hb("35"), true)
+		w.seek(hb("12"), hb("3455"), false)
+		w.seek(hb("12"), hb("3457"), true)
+		putAll(w, "99", "1234aabb")
+		for _, st := range []string{"123455", "123457", "1234aa00", "1234aacc", "12345600", "123456ff"} {
+			w.seek(nil, hb(st), false)
+			w.seek(nil, hb(st), true)
+			w.find(hb("12"), hb(st)[1:], 10)
+		}
+	},
+	// repaired defect 7a41699 (known-findings `fixed:` batch-oversized-value-unreadable): PutBatch checks no
+	// value length, Put and the leaf decoder refuse more than MaxValueLength; with MaxValueLength = 65539 a
+	// bigger item written by a native contract was hashed into the root, flushed, and lost after a reopen.
+	// Now MaxValueLength = 3 + stackitem.MaxSize + 1 = 131074. Both boundaries through PutBatch + reopen:
+	// everything up to MaxValueLength must be read back (oracle); beyond it — more than any native can store —
+	// the key is unreadable after the reopen, which the lazy model predicts (tie only).
+	func(w *world) {
+		w.put(hb("1234"), []byte{1})
+		for i, n := range []int{65538, 65539, 65540, 65541, 100000, 131073, 131074, 131075, 131076} {
+			key := []byte{0x12, 0x40 + byte(i)}
+			val := bytes.Repeat([]byte{0xa5}, n)
+			if n > mpt.MaxValueLength {
+				w.lazy = true // outside the domain: fresh tries are built by Put, which refuses; only the model is compared
+			}
+			w.batch([]change{{key: key, val: val}})
+			w.get(key) // from memory: fine
+			w.root()
+			w.reopen()
+			got, err := w.tr.Get(key)
+			if n <= 3+131070+1 && (err != nil || !bytes.Equal(got, val)) {
+				w.o.Fail("batch-oversized-value-unreadable", w.k, "PutBatch accepted a %d-byte value for key %x (root %x, flushed); after reopening the trie from that root Get = %d bytes, %v", n, key, rootOf(w.tr), len(got), err)
+			}
+			w.get(key)
+			w.proof(key)
+			w.get(hb("1234"))
+		}
+	},
+
 }
